@@ -161,7 +161,7 @@ class ComposedNode(ConfigNode):
         def replace_node(self, new_node, *path):
             raise NotImplementedError()
 
-        def filter_nodes(self, condition, prefix=None, removed=None):
+        def filter_nodes(self, condition, prefix=None, removed=None, holes=False):
             prefix = NodePath.get_list_path(prefix, check_types=False) or NodePath()
             to_del = []
             to_re_set = []
@@ -179,7 +179,7 @@ class ComposedNode(ConfigNode):
                             removed.update(p for p, _ in below)
                         to_del.append(name)
                         continue
-                    possibly_new_child = child.ayns.filter_nodes(condition, prefix=child_path, removed=removed)
+                    possibly_new_child = child.ayns.filter_nodes(condition, prefix=child_path, removed=removed, holes=holes)
                     # a container survives iff something below it does; do not rely on truthiness, which e.g. for
                     # function nodes (!call/!bind) tells whether a target is set, not whether any child is left
                     keep = keep or possibly_new_child.ayns.children_count() > 0
@@ -189,8 +189,14 @@ class ComposedNode(ConfigNode):
                 if not keep:
                     to_del.append(name)
 
+            # (when a merge prunes a list of which some elements stay, the others leave a hole behind: the ones that stay keep their
+            # positions for the element-wise merge that follows, what is still a hole afterwards is dropped - see _drop_holes)
+            leave_holes = holes and isinstance(self, list) and 0 < len(to_del) and (holes == 'always' or len(to_del) < self.ayns.children_count())
             for name in reversed(to_del):
-                self.ayns.remove_child(name)
+                if leave_holes:
+                    self.ayns.set_child(name, ComposedNode._make_hole(self))
+                else:
+                    self.ayns.remove_child(name)
                 if removed is not None:
                     removed.add(prefix + [name])
             for name, child in to_re_set:
@@ -297,6 +303,7 @@ class ComposedNode(ConfigNode):
             if not isinstance(other, ComposedNode):
                 return ConfigNode.ayns.on_merge_impl(self, path, other)
 
+            pruned = False
             if other.ayns.delete:
                 removed = set(self.__dict__.get('_dropped_paths', ())) # (a function node given another target has dropped its arguments already)
                 def maybe_keep(child_path, node):
@@ -304,7 +311,8 @@ class ComposedNode(ConfigNode):
                     other_node = other.ayns.get_first_not_missing_node(child_path[len(path):])
                     return node.ayns.has_priority_over(other_node)
 
-                self.ayns.filter_nodes(maybe_keep, prefix=path, removed=removed)
+                self.ayns.filter_nodes(maybe_keep, prefix=path, removed=removed, holes=True)
+                pruned = True
                 if not self._children and other.ayns.has_priority_over(self, if_equal=True):
                     removed.add(path)
                     other.ayns._require_all_new(path, f'note: the entire config tree under {path!r} has been removed due to node merging with a !del or !clear node', exceptions=removed)
@@ -351,6 +359,8 @@ class ComposedNode(ConfigNode):
             else:
                 ret = self._replace_other(other, allow_promotions=True)
 
+            if pruned or isinstance(self, list):
+                ComposedNode._drop_holes(ret)
             return ret
 
         @staticproperty
@@ -364,6 +374,26 @@ class ComposedNode(ConfigNode):
                 if not n.ayns.allow_new and (exceptions is None or p not in exceptions):
                     raise ValueError(f'Node {p!r} (source file: {n.ayns.source_file!r}) requires that the destination already exists but the current config tree does not contain a node under this path ({reason})')
 
+
+    @staticmethod
+    def _make_hole(parent):
+        ''' What an element removed from a list by the pruning of a merge leaves behind while the merge goes on - see filter_nodes. '''
+        hole = ConfigNode(None)
+        hole._priority = ConfigNode.WEAK - 1 # (below anything a document can say: whatever meets it takes its place)
+        hole._default_safe = parent._default_safe
+        hole._is_hole = True
+        return hole
+
+    @staticmethod
+    def _drop_holes(node):
+        if not isinstance(node, ComposedNode):
+            return
+        for child in list(node.ayns.children()):
+            ComposedNode._drop_holes(child)
+        if isinstance(node, list):
+            for index in reversed(range(node.ayns.children_count())):
+                if node.ayns.get_child(index).__dict__.get('_is_hole'):
+                    node.ayns.remove_child(index)
 
     @staticmethod
     def _leaves_nothing(node):
